@@ -96,7 +96,10 @@ def run_sqlite(case):
 
 def table_sexp(t, unordered=False):
     s = "(t (types %s)" % " ".join(c[1] for c in t["cols"])
-    if unordered:
+    if unordered and t.get("pk") is not None:
+        # disk engine, keyed table: the scan merges the row-sets in PRIMARY KEY order
+        s += " (sortedby %d)" % t["pk"]
+    elif unordered:
         s += " (unordered)"
     for ch in t["chunks"]:
         s += " (c " + " ".join("(r %s)" % " ".join(r) for r in ch) + ")"
@@ -121,7 +124,7 @@ def new_stats():
     return {"evaluations": 0, "shapes": {}, "join_kinds": {}, "aggs": {}, "impl_status": {}, "nonempty": 0,
             "model_vs_impl": {"compared": 0, "disagree": 0}, "impl_vs_oracle": {"compared": 0, "disagree": 0},
             "model_vs_oracle": {"compared": 0, "disagree": 0}, "l1_of_optimised_vs_l1_of_query": {"compared": 0, "disagree": 0},
-            "tags": {}, "distinct": set(), "physical_ops": {}, "order_sensitive_skipped": 0, "engines": {}, "limit_unordered": 0, "scalar_sub": 0, "scalar_sub_shapes": {}, "scalar_sub_dup_outer": 0, "chunks_per_table": {}, "rows_per_table": {}, "disk_disabled_after_timeouts": False}
+            "tags": {}, "distinct": set(), "physical_ops": {}, "order_sensitive_skipped": 0, "engines": {}, "limit_unordered": 0, "order_key_sequences": 0, "scalar_sub": 0, "scalar_sub_shapes": {}, "scalar_sub_dup_outer": 0, "chunks_per_table": {}, "rows_per_table": {}, "disk_disabled_after_timeouts": False}
 
 
 def neutralise_limits(plan):
@@ -290,6 +293,31 @@ def decide(ck, c, ir, mr, stats, engine="memory"):
         stats["limit_unordered"] += 1
     else:
         observed = I != O
+    okeys = c.get("order_keys")
+    if okeys and not observed:
+        # ORDER BY on a subset of the output columns: besides the bag, the SEQUENCE on these positions
+        # (NULL lowest in both systems; rows with equal keys are free)
+        stats["order_key_sequences"] += 1
+        kseq = lambda rows: [tuple(r[k] for k in okeys) for r in rows]
+        if kseq(irows) != kseq([tuple(r) for r in orows]):
+            stats["impl_vs_oracle"]["disagree"] += 1
+            l2seq = kseq(parse_cell(mr[1])[1]) if mr and len(mr) > 1 else None
+            if l2seq == kseq(irows):
+                # the executed plan itself does not produce the order (the model reproduces it): the planner dropped /
+                # misplaced the ORDER BY
+                sig = "plan-semantics:order-by-not-honoured"
+            else:
+                sig = "impl-vs-sqlite:order-keys/" + sc
+            stats["tags"][sig] = stats["tags"].get(sig, 0) + 1
+            ck.report(sig, "ORDER BY keys out of order: `%s` returns key sequence %s, SQLite %s" % (c["sql"], kseq(irows)[:12], kseq([tuple(r) for r in orows])[:12]), replay=rep)
+            return
+        l2seq = kseq(parse_cell(mr[1])[1])
+        if parse_cell(mr[1])[0].split(" ")[0] == "ok" and l2seq != kseq(irows):
+            stats["model_vs_impl"]["disagree"] += 1
+            ck.report("corr:l2-vs-impl/order-keys/" + sc, "L2 model and implementation order the keys differently on %s: L2=%s impl=%s" % (c["sql"], l2seq[:12], kseq(irows)[:12]), replay=rep, found_input=False)
+        l1seq = kseq(parse_cell(mr[0])[2])
+        if l1seq != kseq([tuple(r) for r in orows]):
+            ck.report("spec:l1-vs-sqlite/order-keys/" + sc, "L1 and SQLite order the keys differently on %s" % c["sql"], replay=rep, found_input=False)
     if observed:
         stats["impl_vs_oracle"]["disagree"] += 1
     # ---- model_vs_impl: L2 of the plan that ran --------------------------------------------------
@@ -407,6 +435,7 @@ def run(ck):
                          "engines": stats["engines"],
                          "chunks_per_table (one INSERT = one scan chunk; clustered tables keep the partner rows in one chosen chunk)": dict(sorted(stats["chunks_per_table"].items())),
                          "rows_per_table": stats["rows_per_table"],
+                         "order_by_on_padded_side_key_over_outer_join (keyed t1; sequence on the key compared)": stats["order_key_sequences"],
                          "correlated_scalar_aggregate_subqueries": {"runs": stats["scalar_sub"], "outer_table_with_duplicate_rows": stats["scalar_sub_dup_outer"],
                                                                     "agg/form": dict(sorted(stats["scalar_sub_shapes"].items()))}, "disk_disabled_after_3_timeouts": stats["disk_disabled_after_timeouts"],
                          "limit_offset_without_order_by(count+membership only)": stats["limit_unordered"]},
